@@ -15,9 +15,9 @@
      - every symbol held afterwards is the codeword's, and every symbol held before is kept;
      - the status is OK iff all k sources are available afterwards;
      - that happens iff the sources are uniquely determined by the received symbols and the parity
-       equations: every GF(2) kernel vector of H that vanishes on the received set vanishes on all
-       source columns (equivalently: any two codewords that agree on the received symbols agree on
-       the sources);
+       equations, stated over GF(2) and independently of the data: every kernel vector of H that
+       vanishes on the received set vanishes on all source columns (no non-zero "difference of two
+       codewords" is invisible on the received set yet visible on a source);
      - hence the outcome depends only on the SET of received symbols: not on order, duplicates, the
        submission API, rand() or the fuel. *)
 From Coq Require Import Arith List Bool.
